@@ -8,6 +8,8 @@
 #include "QXmppClient.h"
 #include "QXmppConstants_p.h"
 
+#include "StringLiterals.h"
+
 #include <QDomElement>
 
 /// \cond
@@ -20,6 +22,11 @@ QStringList QXmppArchiveManager::discoveryFeatures() const
 bool QXmppArchiveManager::handleStanza(const QDomElement &element)
 {
     if (element.tagName() != u"iq") {
+        return false;
+    }
+
+    // only responses are handled here, requests must get the default error reply
+    if (const auto type = element.attribute(u"type"_s); type == u"get" || type == u"set") {
         return false;
     }
 
